@@ -46,6 +46,8 @@ type histRec struct {
 	Ops       []op   `json:"ops"`
 	Step      int    `json:"failing_step"`
 	What      string `json:"what"`
+	// Conc is set for violations of the concurrent part (conc.go); Container is "conc" then.
+	Conc *concReplay `json:"conc,omitempty"`
 }
 
 // opSpec describes one operation class of a generator table.
@@ -407,6 +409,13 @@ func replay(c *vf.Ctx) {
 		fmt.Fprintln(os.Stderr, err)
 		os.Exit(3)
 	}
+	if r.Container == "conc" {
+		if r.Conc == nil {
+			r.Conc = &concReplay{}
+		}
+		concReplayRun(c, r.Conc)
+		return
+	}
 	for _, d := range defs {
 		if d.name != r.Container {
 			continue
@@ -428,10 +437,14 @@ func run(c *vf.Ctx) {
 		replay(c)
 		return
 	}
-	c.SetRule("per container, history i uses configuration i mod #configs and an operation list drawn from a weighted op table by a PRNG derived from (seed, container, i); one evaluation = one operation applied to implementation and model with all observers compared afterwards; distinct_nontrivial = distinct (container, configuration, abstract model state) triples reached; distinct_states:<container> the same per container; <container>:<note> counters count the situations the expected defects and the mutations need (wrap-arounds, rebuilds, seen-then-new PushFront, limit drops on foreign topics, ...)")
+	c.SetRule("per container, history i uses configuration i mod #configs and an operation list drawn from a weighted op table by a PRNG derived from (seed, container, i); one evaluation = one operation applied to implementation and model with all observers compared afterwards; distinct_nontrivial = distinct (container, configuration, abstract model state) triples reached; distinct_states:<container> the same per container; <container>:<note> counters count the situations the expected defects and the mutations need (wrap-arounds, rebuilds, seen-then-new PushFront, limit drops on foreign topics, ...). Part conc (self-synchronising containers only: ShrinkingMap, RandomMap, Queue, RingBuffer, thread-safe Stack, PriorityQueue, timed.PriorityQueue, BytesFilter, TimeHeap, IndexedStorage, OnChangeMap, SubscriptionManager): history i of a definition uses configuration i mod #configs, 3-6 goroutines released by a spin barrier x 4-10 operations drawn by a PRNG derived from (seed, definition, i), unique values, seeded Gosched jitter (also inside callbacks), call/return stamps from one atomic counter, a sequential setup prefix and a quiescent tail of reads/drains; conc:evaluations = recorded operations handed to porcupine; conc:overlapping_pairs = pairs of operations of different goroutines whose [call,return] windows intersect; distinct_conc_shapes = distinct stamp-ordered call/return sequences of histories with at least one such pair; conservation scenarios (single-writer keys, determined final state) run a fixed number of rounds per variant; the same workloads run in a -race child, every second history/round without the stamping counter")
 	histories := c.Pick(1000, 50000)
 	workers := runtime.NumCPU()
-	if only := os.Getenv("C12_ONLY"); only != "" { // development aid: restrict to one container
+	if only := os.Getenv("C12_ONLY"); only != "" { // development aid: restrict to one container (or to the concurrent part)
+		if only == "conc" {
+			concPart(c)
+			return
+		}
 		for _, d := range defs {
 			if d.name == only {
 				runDef(c, d, histories, workers)
@@ -442,6 +455,7 @@ func run(c *vf.Ctx) {
 	for _, d := range defs {
 		runDef(c, d, histories, workers)
 	}
+	concPart(c)
 	c.SetExhaustive(false)
 	c.Require("evaluations", 13*histories*30)
 	c.Require("configs", 40)
@@ -449,7 +463,7 @@ func run(c *vf.Ctx) {
 	c.Assume("TimeHeap: the test process is not suspended for an hour inside one history (window 1h never expires an entry)")
 }
 
-func main() { vf.Main("C12", "exploration", run, nil) }
+func main() { vf.Main("C12", "exploration", run, child) }
 
 // ---------------------------------------------------------------- small helpers
 
